@@ -271,7 +271,7 @@ class _FilterCanon(ast.NodeTransformer):
 
 def key_derivation_clause(ctx, func, sl):
     """KEY-DERIVATION: for every field the specification entry selects, each key template of the entry yields one key value under the
-    same key: re.sub(<entry name>, template, <field name>) exactly when regex is on and the template is a string, the template itself
+    same key: <entry pattern>.fullmatch(<field name>).expand(template) exactly when regex is on and the template is a string, the template itself
     otherwise; the fresh mapping is stored as the field's keys.  Decided path by path over the body of the loop over the templates."""
     run, repo = ctx.run, ctx.repo
     from sa.pathvals import subst
@@ -331,7 +331,11 @@ def key_derivation_clause(ctx, func, sl):
             else:
                 run.fail('UNP', where(repo, kl), func.qualname, u(kl.target), 'the loop over the key templates does not bind the key')
                 continue
-            want_sub = 're.sub(%s[\'name\'], %s, %s[\'name\'])' % (spec, tmpl, fld)
+            # the template is expanded on the match that SELECTED the field - the full match of the entry's pattern on the field name.
+            # (re.sub(pattern, template, name) substitutes the leftmost match of a search: for `a|ab` on the field `ab`, selected through
+            # the second alternative, it rewrites only the `a` and derives `<template>b`; for `.*` it derives the template twice)
+            want_sub = ["re.compile(%s['name']).fullmatch(%s['name']).expand(%s)" % (spec, fld, tmpl),
+                        "re.fullmatch(%s['name'], %s['name']).expand(%s)" % (spec, fld, tmpl)]
             for p in Enumerator(where=func.qualname).body_paths(kl):
                 pv = PathValues(p, env=dict(once))
                 g_regex = g_str = None
@@ -361,11 +365,11 @@ def key_derivation_clause(ctx, func, sl):
                 if ok:
                     v = stores[0].value
                     if g_regex is True and g_str is True:
-                        ok = match_expr(want_sub, v) is not None
+                        ok = any(match_expr(w_, v) is not None for w_ in want_sub)
                     else:
                         ok = u(v) == tmpl
                 run.check(ok, 'UNP', where(repo, kl), func.qualname,
-                          'keys[key] = re.sub(entry name, template, field name) iff regex and the template is a string, else the template',
+                          'keys[key] = <entry pattern>.fullmatch(field name).expand(template) iff regex and the template is a string, else the template',
                           'a derived key value is not the back-reference substitution of its template against the field name exactly when '
                           'regex is on and the template is a string (or a key is skipped): the rows unpivoted from different columns '
                           'carry wrong or indistinguishable keys', detail=str(p.describe()))
